@@ -164,6 +164,19 @@ func init() {
 	c12a = nodeCheck("C12", "C12", ruleNode+"at every quiescent point: at most one step timer outstanding, it belongs to the state machine's current round and matches its step, a proposal timer is armed whenever the machine still awaits a proposal; (part b, the production StandardRoundTimer under all interleavings, is exploreTimer) non-trivial as C02", false)
 }
 
+func init() {
+	c09node := nodeCheck("C09", "C09", ruleNode+ruleCommon+"C09 oracles: every execution must leave the worker alive (a panic on any engine goroutine kills it and is recorded with the panic message and first engine frame), every Handle* call returns (a call making more than 4000 kernel round trips is a livelock) with a declared constant, the views still answer, the kernels are still running at the end (goroutine inspection), every witnessed result is translated by both shipped feedback mappers; plus every constructor configuration within Hamming distance 2 (thorough 3) of the empty and of the complete valid option set in several orders; non-trivial as C02", true)
+	registry.Checks["C09"] = func(c *vx.Ctx) {
+		d := 2
+		if !c.Quick() {
+			d = 3
+		}
+		exploreCtor(c, d)
+		c09node(c)
+	}
+	registry.Checks["C10"] = func(c *vx.Ctx) { checkC10(c) }
+}
+
 var _ = registry
 
 func init() {
@@ -183,5 +196,12 @@ func init() {
 		exploreNet(c, heights, maxDev, seeds)
 		c.Assume("3 honest engines holding >2/3 of the power with the harness's lock-respecting strategy (never unlocks), 1 Byzantine validator")
 		c.Assume("bounded: 4 validators, 2 (thorough 3) heights, schedules within the stated deviation bound of the FIFO schedule")
+	}
+}
+
+func init() {
+	registry.Checks["CTOR"] = func(c *vx.Ctx) {
+		c.Rule = "constructor configurations"
+		exploreCtor(c, 2)
 	}
 }
